@@ -19,6 +19,7 @@ parameters of the listed functions (PARAMS), the whitelist of pure callables
 hold immutable values (ints, enums, tuples of frozen attrs instances).
 """
 import ast
+import os
 import sys
 from pathlib import Path
 
@@ -105,6 +106,9 @@ INLINE = {
     "Position.from_squares": TARGETS["from_squares"],
     "parse_row": TARGETS["parse_row"],
 }
+# what an inlined helper returns (checked against the translation of its body)
+INLINE_RET = {"Position._move_place": "imm", "Position._move_slide": "imm", "Position.from_squares": "pos",
+              "parse_row": "board"}
 # call spellings -> key of INLINE
 INLINE_SPELLINGS = {
     "self._move_place": "Position._move_place",
@@ -231,8 +235,11 @@ def seq(stmts):
 class Act:
     """one activation (a listed function, or an inlined callee)"""
 
-    def __init__(self, world, key, spec, prefix=""):
+    def __init__(self, world, key, spec, prefix="", register=True):
         self.w, self.key, self.prefix = world, key, prefix
+        self.register = register
+        self.rename = {}       # heap parameter of an inlined callee -> IR variable of the caller holding the argument
+        self.inline_ok = None  # the one Call node that may be an inlined call right now
         self.rel, self.qual, self.pkinds = spec
         tree, self.filename = world.tree(self.rel)
         self.fn = find_def(tree, self.qual)
@@ -257,7 +264,20 @@ class Act:
         raise Unsupported(msg, node, self.fnkey)
 
     def v(self, name):
-        return self.prefix + name
+        return self.rename.get(name, self.prefix + name)
+
+    def is_inline(self, e):
+        return isinstance(e, ast.Call) and self.call_name(e) in INLINE_SPELLINGS
+
+    def vtype(self, e):
+        """type of a value expression that may be (at its top) a call of an inlined helper"""
+        if self.is_inline(e):
+            self.inline_ok = e
+            try:
+                return self.ptype(e)
+            finally:
+                self.inline_ok = None
+        return self.ptype(e)
 
     def ntype(self, name):
         if name not in self.types:
@@ -364,7 +384,7 @@ class Act:
                 t = P(x)
                 if is_heap(t, force=False):
                     heap = True
-                el = unify(el, t, e) if (is_heap(t, force=False) or el.find().kind != "var") else unify(el, t, e)
+                el = unify(el, t, e)
             if isinstance(e, ast.Set) and heap:
                 self.err("set display", e)
             return LIST(el) if heap else IMM()
@@ -430,7 +450,12 @@ class Act:
         name = self.call_name(e)
         args = list(e.args) + [k.value for k in e.keywords]
         if name in INLINE_SPELLINGS:
-            self.err(f"call of {name} inside an expression that is not translated as a statement", e)
+            if self.inline_ok is not e:
+                self.err(f"call of {name} inside an expression that is not translated as a statement", e)
+            self.inline_ok = None
+            for a in args:
+                P(a)
+            return mk_type(INLINE_RET[INLINE_SPELLINGS[name]])
         if name in ("list", "sorted", "tuple") and len(e.args) == 1 and not e.keywords:
             a = e.args[0]
             if isinstance(a, ast.Call) and self.call_name(a) == "reversed" and len(a.args) == 1:
@@ -490,9 +515,13 @@ class Act:
             return IMM()
         for a in args:
             t = P(a)
-            if is_heap(t):
+            if is_heap(t) and not self.display_of_imm(a, scope):
                 self.err(f"call into unknown code `{name}` is handed a {t!r}: {self.src(a)}", e)
         return IMM()
+
+    def display_of_imm(self, a, scope):
+        """a list display (a fresh temporary) all of whose elements are immediates: nothing of a position is reachable from it"""
+        return isinstance(a, ast.List) and not any(isinstance(x, ast.Starred) or is_heap(self.ptype(x, scope)) for x in a.elts)
 
     def pure_method(self, meth, node):
         """a method of Position called on a position: must translate to an IR without stores and return an immediate"""
@@ -509,7 +538,7 @@ class Act:
         kinds["self"] = "pos"
         self.w.stack.append(key)
         try:
-            act = Act(self.w, key, (POSITION_CLASS[0], key, kinds), prefix=self.w.temp() + ".")
+            act = Act(self.w, key, (POSITION_CLASS[0], key, kinds), prefix=self.w.temp() + ".", register=False)
             act.translate_body()
             ok = not act.muts and not is_heap(act.ret)
         finally:
@@ -526,14 +555,18 @@ class Act:
         """name (IR variable) holding the heap object denoted by e"""
         if isinstance(e, ast.Name) and e.id in self.types:
             return self.v(e.id)
+        if self.is_inline(e):
+            return self.inline_call(e, out)
         r, t = self.rhs(e, out)
         tmp = self.w.temp()
         out.append(f"SBind {S(tmp)} ({r})")
         return tmp
 
     def atom(self, e, out):
-        t = self.ptype(e)
+        t = self.vtype(e)
         if not is_heap(t):
+            if self.is_inline(e):
+                self.inline_call(e, out)
             return "AImm", t
         return f"AVar {S(self.var_of(e, out))}", t
 
@@ -549,7 +582,10 @@ class Act:
 
     def rhs(self, e, out):
         """(Coq rhs term, type) for a heap-valued expression; sub-expressions are flattened into `out`"""
-        t = self.ptype(e)
+        t = self.vtype(e)
+        if self.is_inline(e):
+            tmp = self.inline_call(e, out)
+            return (f"RAtom (AVar {S(tmp)})" if is_heap(t) else "RAtom AImm"), t
         if not is_heap(t):
             return "RAtom AImm", t
         if isinstance(e, ast.Name):
@@ -599,10 +635,9 @@ class Act:
             if len(e.generators) != 1 or e.generators[0].ifs:
                 self.err("comprehension with several generators or a filter", e)
             g = e.generators[0]
-            self.need_imm(self.ptype(g.iter), g.iter) if not isinstance(g.iter, ast.Name) else None
             it = self.ptype(g.iter).find()
-            if it.kind == "list" and is_heap(it.elem):
-                self.err("comprehension over a list of heap objects", e)
+            if it.kind in ("pos", "dict") or (it.kind == "list" and is_heap(it.elem)):
+                self.err("comprehension over heap objects", e)
             if isinstance(e.elt, ast.List) and not any(self.is_heap_expr(x) for x in e.elt.elts):
                 self.oracle("len", self.src(g.iter))
                 return f"RComp [{'; '.join(['AImm'] * len(e.elt.elts))}]", t
@@ -616,9 +651,6 @@ class Act:
             self.err("comprehension whose element is not an immediate or a display of immediates", e)
         if isinstance(e, ast.Call):
             name = self.call_name(e)
-            if name in INLINE_SPELLINGS:
-                tmp = self.inline_call(e, out)
-                return f"RAtom (AVar {S(tmp)})", t
             if name in ("list", "sorted", "tuple") and len(e.args) == 1:
                 a = e.args[0]
                 if isinstance(a, ast.Call) and self.call_name(a) == "reversed":
@@ -693,25 +725,29 @@ class Act:
                 if p != "cls":
                     self.need_imm(self.ptype(a), a)
                 continue
-            at, ty = self.atom(a, pre)
+            ty = self.ptype(a)
+            if not is_heap(ty):
+                self.err(f"parameter `{p}` of {key} is declared a heap object but is passed an immediate", e)
             unify(act.types[p], ty, a)
-            pre.append(f"SBind {S(prefix + p)} (RAtom ({at}))")
+            # parameter passing is aliasing: the callee's name for the parameter IS the caller's variable
+            act.rename[p] = self.var_of(a, pre)
         self.w.stack.append(key)
         try:
             body = act.translate_body()
         finally:
             self.w.stack.pop()
+        unify(act.ret, mk_type(INLINE_RET[key]), e)
         self.muts += act.muts
         tmp = self.w.temp()
         out.extend(pre)
         out.append(f"SCall {S(tmp)} ({body})")
-        self.types[tmp[len(self.prefix):] if self.prefix and tmp.startswith(self.prefix) else tmp] = act.ret
-        self._last_call_type = act.ret
         return tmp
 
     # ---- statements ----
     def translate_body(self):
         body = self.block(self.fn.body)
+        if not self.register:
+            return body
         old = self.w.tables.get(self.fnkey)
         mine = {k: {kk: vv for kk, vv in v.items()} for k, v in self.table.items()}
         if old is not None and _table_sig(old) != _table_sig(mine):
@@ -774,6 +810,8 @@ class Act:
                 if not (isinstance(s.iter, ast.Name) and isinstance(s.target, ast.Name)):
                     self.err("iteration over heap objects other than `for v in name`", s)
                 unify(self.ntype(s.target.id), it.elem, s)
+                if s.target.id in self.rename:
+                    self.err("an inlined helper re-binds its heap parameter", s)
                 bd = f"Some ({S(self.v(s.target.id))}, {S(self.v(s.iter.id))})"
             else:
                 self.bind_imm_target(s.target)
@@ -888,18 +926,25 @@ class Act:
             unify(rt.elem, ty, a)
             return at
 
+        # value temporaries (and their oracles) come before the store
+        pre = None
+        if meth == "append" and len(args) == 1:
+            pre = elem_atom(args[0])
+        elif meth == "insert" and len(args) == 2:
+            pre = elem_atom(args[1])
+        elif meth == "extend" and len(args) == 1:
+            if not self.is_heap_expr(args[0]):
+                self.err("extend by something that is not a list", s)
+            pre = self.var_of(args[0], out)
+            unify(rt, self.ptype(args[0]), s)
+
         def opf():
             if meth == "append" and len(args) == 1:
-                return f"MAppend ({elem_atom(args[0])})"
+                return f"MAppend ({pre})"
             if meth == "extend" and len(args) == 1:
-                if not self.is_heap_expr(args[0]):
-                    self.err("extend by something that is not a list", s)
-                y = self.var_of(args[0], out)
-                unify(rt, self.ptype(args[0]), s)
-                return f"MExtend {S(y)}"
+                return f"MExtend {S(pre)}"
             if meth == "insert" and len(args) == 2:
-                at = elem_atom(args[1])
-                return f"MInsert ({self.idx(recv, args[0])}) ({at})"
+                return f"MInsert ({self.idx(recv, args[0])}) ({pre})"
             if meth == "pop" and len(args) <= 1:
                 return f"MDelIdx ({self.idx(recv, args[0]) if args else 'ILast'})"
             if meth == "remove" and len(args) == 1:
@@ -914,18 +959,20 @@ class Act:
             if meth == "clear" and not args:
                 return "MClear"
             self.err(f"unsupported in-place method `{meth}`", s)
-        # the element atom may emit temporaries: they must precede the store, and a target index oracle precedes the op's
         self.emit_mut(recv, s, opf, out)
-        # emit_mut appended the SMut after opf() ran, so temporaries produced by opf are already in `out` before it
 
     def assign(self, target, value, s, out):
         if isinstance(target, ast.Name):
-            t = self.ptype(value)
+            t = self.vtype(value)
             if not is_heap(t):
                 unify(self.ntype(target.id), t, s)
+                if self.is_inline(value):
+                    self.inline_call(value, out)
                 return
             r, t = self.rhs(value, out)
             unify(self.ntype(target.id), t, s)
+            if target.id in self.rename:
+                self.err(f"an inlined helper re-binds its heap parameter `{target.id}`", s)
             out.append(f"SBind {S(self.v(target.id))} ({r})")
             return
         if isinstance(target, (ast.Tuple, ast.List)):
@@ -941,13 +988,7 @@ class Act:
         if isinstance(target, ast.Subscript):
             bt = self.ptype(target.value).find()
             if not is_heap(bt):
-                self.ptype(value)
-                self.err("store into an element of an immediate", s) if False else None
-                # e.g. a numpy temporary built from immediates: no position state is reachable from it
-                self.need_imm(self.ptype(value), value)
-                if not isinstance(target.value, ast.Name) or target.value.id not in self.types:
-                    self.err("store into an element of a non-local immediate", s)
-                return
+                self.err("store into an element of something not known to be a local list", s)
             if bt.kind == "dict":
                 k = target.slice
                 if not (isinstance(k, ast.Constant) and k.value in self.w.fnames):
@@ -1002,9 +1043,7 @@ class Act:
             self.need_imm(self.ptype(s.value), s.value)
             bt = self.ptype(t.value).find()
             if not is_heap(bt):
-                if not isinstance(t.value, ast.Name) or t.value.id not in self.types:
-                    self.err("store into an element of a non-local immediate", s)
-                return
+                self.err("store into an element of something not known to be a local list", s)
             if isinstance(t.slice, ast.Slice):
                 self.err("augmented slice assignment", s)
             self.emit_mut(t.value, s, lambda: f"MSet ({self.idx(t.value, t.slice)}) (AImm)", out)
@@ -1103,15 +1142,22 @@ BIG = 10 ** 6
 class Tracer:
     def __init__(self, world):
         self.tables = {}
+        self._real = {}
         for fnkey, tab in world.tables.items():
             rel, qual = fnkey.split(":")
-            fname = str(Path(world.repo_python) / rel)
+            fname = os.path.realpath(str(Path(world.repo_python) / rel))
             line2stmt = {}
             for sid, info in tab.items():
                 for ln in range(info["line"], info["end"] + 1):
                     line2stmt[ln] = sid
             self.tables[(fname, qual)] = (tab, line2stmt)
         self.reset()
+
+    def real(self, f):
+        r = self._real.get(f)
+        if r is None:
+            r = self._real[f] = os.path.realpath(f)
+        return r
 
     def reset(self):
         self.out = []
@@ -1178,7 +1224,7 @@ class Tracer:
         if event != "call":
             return None
         co = frame.f_code
-        key = (co.co_filename, co.co_qualname)
+        key = (self.real(co.co_filename), co.co_qualname)
         t = self.tables.get(key)
         if t is None:
             return None
